@@ -124,7 +124,20 @@ pub fn check_case(c: &Case) -> CaseResult {
             wgen::families::append_custom(&mut input, &n, &d);
         }
     }
-    let mut m = match parse(&input, &cfg) {
+    // "on-instr-loc": the user supplies the location ids (here: position + 7); the input half of every
+    // pair is then whatever that callback returned for the instruction, i.e. its position + 7
+    let loc_shift: u32 = if how == "on-instr-loc" { 7 } else { 0 };
+    let parsed = if how == "on-instr-loc" {
+        let mut wc = cfg.config();
+        wc.on_instr_loc(|pos| InstrLocId::new(*pos as u32 + 7));
+        match std::panic::catch_unwind(std::panic::AssertUnwindSafe(|| wc.parse(&input))) {
+            Ok(Ok(m)) => Ok(m),
+            _ => Err(()),
+        }
+    } else {
+        parse(&input, &cfg).map_err(|_| ())
+    };
+    let mut m = match parsed {
         Ok(m) => m,
         Err(_) => return r,
     };
@@ -223,6 +236,7 @@ pub fn check_case(c: &Case) -> CaseResult {
     };
     let mut hit: std::collections::HashMap<(u32, usize), usize> = std::collections::HashMap::new();
     for (inoff, outoff) in &s.pairs {
+        let inoff = &inoff.wrapping_sub(loc_shift);
         match by_off.get(inoff) {
             None => bad("pair-input-offset-not-an-instruction".into(), format!("pair ({}, {}): no input instruction starts at {}", inoff, outoff, inoff)),
             Some((fi, k)) => {
@@ -320,13 +334,13 @@ pub fn run(args: &Args) -> i32 {
                 }
             }
             if b.family != "body" && b.family != "fixtures" {
-                for how in ["dwarf", "dwarf-input", "both"] {
+                for how in ["dwarf", "dwarf-input", "both", "on-instr-loc"] {
                     cases.push(b.clone().with(json!({"edit": e, "how": how})));
                 }
             }
         }
     }
-    ev.rule = "every member of body(L)/funcs/leb/locals/fixtures x {unchanged, two instructions inserted at the start of the first function, gc, a whole function added through the builder (one that is emitted first, one that is emitted last)} with preserve_code_transform(true), and for the generated families also with generate_dwarf(true) (which implies it) with and without DWARF in the input: a spy custom section copies the \
+    ev.rule = "every member of body(L)/funcs/leb/locals/fixtures x {unchanged, two instructions inserted at the start of the first function, gc, a whole function added through the builder (one that is emitted first, one that is emitted last)} with preserve_code_transform(true), and for the generated families also with generate_dwarf(true) (which implies it) with and without DWARF in the input, and with location ids supplied by an `on_instr_loc` callback: a spy custom section copies the \
         CodeTransform; every (input offset, output offset) pair must name the first byte of an input operator and the first byte of the corresponding output operator (correspondence from iso; for the insert edit \
         against an expected module built by byte surgery); every surviving operator in exactly one pair; function ranges = code entries incl. size LEB; code_section_start = first byte of the code section contents. \
         non-trivial = walrus renumbered or elided something"
